@@ -342,12 +342,17 @@ def split_rows(sym, bb, idx, rv, limit=24):
     """Evaluate rvalue `rv` at (bb, idx) once per combination of reaching definitions of the multiply-defined locals it
     depends on: [(choice {local: definition point}, value)].  A choice's definition lies on the path taken, so whatever
     dominates that definition holds on the row's path as well."""
+    return split_eval(sym, bb, idx, lambda v: v.rvalue(rv), limit)
+
+
+def split_eval(sym, bb, idx, fn, limit=24):
+    """split_rows for an arbitrary evaluation `fn(view)` (e.g. the value of a call with its arguments)"""
     out = []
     work = [{}]
     while work and len(out) + len(work) <= limit:
         ch = work.pop()
         v = SymAt(sym, bb, idx, ch)
-        val = v.rvalue(rv)
+        val = fn(v)
         amb = {l: pts for l, pts in v.ambiguous.items() if l not in ch}
         if not amb:
             out.append((ch, val))
